@@ -15,14 +15,14 @@ impl Node {
 //@end
 }
 /// what the analysis already produced at this position (analysis/created.rs; Kani set k_created)
-pub struct CreatedWords { _p: () }
+#[verifier::external_body] pub struct CreatedWords { _p: () }
 impl CreatedWords {
     uninterp spec fn sp_nonempty(&self) -> bool;
     #[verifier::external_body] fn not_empty(&self) -> (r: bool) ensures r == self.sp_nonempty() { unimplemented!() }
 }
 /// opaque collaborator: the built text; get_word_candidate_length is decided in unit v_bufro (distance to the next character that may
 /// begin a word, or to the end of the text)
-pub struct InputBuffer { _p: () }
+#[verifier::external_body] pub struct InputBuffer { _p: () }
 impl InputBuffer {
     uninterp spec fn sp_nch(&self) -> int;
     uninterp spec fn sp_cand_len(&self, i: int) -> int;
